@@ -25,6 +25,7 @@ From mathcomp Require Import all_ssreflect all_algebra.
 From Verif Require Import Lib.Bytes Lib.Lagrange.
 From Verif Require Import Model.DKGPure Model.DKGDriver.
 From Verif Require Import Proofs.DKGPure Proofs.DKGChain Proofs.DKGAlgebra Proofs.DKGExamples Proofs.EpochKGAlgebra.
+From Verif Require Import Generated.DkgPhase Proofs.DkgPhase.
 Import GRing.Theory.
 Local Open Scope ring_scope.
 
@@ -189,3 +190,17 @@ Example C07_no_false_conviction_partial_nonvacuous :
   In (0%nat, 1%nat) (p_accs DkgEx.d_fin) /\
   is_corrupt DkgEx.C DkgEx.E DkgEx.P DkgEx.verify DkgEx.d_fin 2 = true.
 Proof. split; first by []. split; [by left|by []]. Qed.
+
+(* The phase function of the model is, for all phase lengths, heights and start heights, the
+   function the translator produces from keyper/dkgphase/phase.go (NewConstantPhaseLength and
+   PhaseLength.GetPhaseAtHeight, statement by statement; Generated/DkgPhase.v is rewritten from
+   the repository's source on every check). *)
+Theorem C07_phase_function_agrees_with_source :
+  forall L height start : Z, phase_at L height start = gen_phase_at L height start.
+Proof. exact phase_at_is_generated. Qed.
+Print Assumptions C07_phase_function_agrees_with_source.
+
+Example C07_phase_function_agrees_with_source_nonvacuous :
+  gen_phase_at 6 9 9 = Dealing /\ gen_phase_at 6 15 9 = Accusing /\ gen_phase_at 6 21 9 = Apologizing /\
+  gen_phase_at 6 27 9 = Finalized /\ gen_phase_at 6 8 9 = Off.
+Proof. by []. Qed.
